@@ -307,6 +307,8 @@ def extra_pad_values(seed):
         hs.append([['rainbow', 'abc'], ['apply', R['R'], 0, 3, True], ['slice', 0, k], ['cat', ['ctor', 'z', R['R']]]])
         hs.append([['plain', 'abc'], ['apply', R['R'], 0, 3, True], ['apply', R['B'], k, 3, False], ['slice', 0, k + 1]])
     hs.append([['plain', 'ab'], ['apply', R['R'], 0, 2, True], ['center', 4, '*', True, True], ['slice', 1, 3]])
+    # texts that start with a sign or are digits only (a sign-aware or number-aware pad would treat them differently)
+    hs += [[['ctor', '-5', R['R']]], [['rainbow', '+a-']], [['plain', '-']], [['rainbow', '007']]]
     hs.append([['plain', 'abcd'], ['apply', R['R'], 0, 2, True], ['apply', R['W'], 0, 3, True], ['apply', R['U'], 0, 2, True]])
     hs.append([['plain', 'abcd'], ['apply', R['R'], 0, 4, True], ['apply', R['B'], 1, 4, True], ['apply', R['R'], 2, 3, True]])
     return [(h, build(h)) for h in hs]
